@@ -183,6 +183,7 @@ type Exec struct {
 	inInit, inLenient bool
 	feasAlways bool
 	feasTag string
+	rub     []*rubCtx
 	fresh   map[string]int
 	initSkipped []string
 }
@@ -491,8 +492,13 @@ func (ex *Exec) mergeArms(st *State, fr *Frame, arms []*arm) Value {
 		}
 		// defers: common prefix + guarded extras
 		base := len(fr.defers)
+		for _, a := range live {
+			if len(a.fr.defers) < base { // the arm already ran its deferred calls (it is at the function exit)
+				base = len(a.fr.defers)
+			}
+		}
 		var defs []deferred
-		defs = append(defs, fr.defers...)
+		defs = append(defs, fr.defers[:base]...)
 		for _, a := range live {
 			for _, d := range a.fr.defers[base:] {
 				d.g = And(d.g, a.g)
@@ -669,7 +675,7 @@ func (ex *Exec) constValue(c *ssa.Const) Value {
 		if b := t.Underlying().(*types.Basic); b.Kind() == types.Float32 {
 			f = float64(float32(f))
 		}
-		return &FloatV{f}
+		return &FloatV{F: f}
 	}
 	panic(unsupported("constant of type " + t.String()))
 }
